@@ -35,13 +35,91 @@ structure Inv1 (P : Project) (s : State) : Prop where
   frame_reg : ∀ t f, f ∈ s.stack t → s.registry f.mod = true
   new_reg : ∀ t d, (s.pc t = .setNew d ∨ s.pc t = .load d) → s.registry d = true
 
+theorem init_pc (P : Project) (t : Tid) :
+    (P.roots[t]? = none ∧ (init P).pc t = .finished) ∨ ∃ r, P.roots[t]? = some r ∧ (init P).pc t = .call r := by
+  simp only [init]
+  cases h : P.roots[t]? with
+  | none => simp
+  | some r => simp
+
 theorem inv1_init (P : Project) : Inv1 P (init P) := by
-  constructor <;> simp only [init] <;> intros <;> simp_all [target, foundPc]
-  · rename_i t h; simp [List.getElem?_eq_none h]
-  · split at * <;> simp_all
-  · split at * <;> simp_all [target]
-  · split at * <;> simp_all [foundPc]
-  · split at * <;> simp_all
-  · split at * <;> simp_all
+  constructor
+  · intro t h
+    rcases init_pc P t with ⟨_, h2⟩ | ⟨r, h1, _⟩
+    · exact h2
+    · rw [List.getElem?_eq_none h] at h1; cases h1
+  · intro t _; rfl
+  · intro t h
+    rcases init_pc P t with ⟨_, h2⟩ | ⟨r, _, h2⟩ <;> rw [h2] at h <;> simp at h
+  · intro t f rest d h; simp [init] at h
+  · intro t d _ h
+    rcases init_pc P t with ⟨_, h2⟩ | ⟨r, h1, h2⟩ <;> rw [h2] at h <;> simp [target] at h
+    subst h; exact h1
+  · intro t f rest r h; simp [init] at h
+  · intro t f h; simp [init] at h
+  · intro t u l post pre h; simp [init] at h
+  · intro t d h
+    rcases init_pc P t with ⟨_, h2⟩ | ⟨r, _, h2⟩ <;> rw [h2] at h <;> simp [foundPc] at h
+  · intro m h; simp [init] at h
+  · intro t f h; simp [init] at h
+  · intro t d h
+    rcases init_pc P t with ⟨_, h2⟩ | ⟨r, _, h2⟩ <;> rw [h2] at h <;> simp at h
+
+set_option maxHeartbeats 400000 in
+theorem inv1_fstep {P : Project} {s s' : State} {t : Tid} (inv : Inv1 P s) (st : FStep P s t s') : Inv1 P s' := by
+  have ⟨i1,i2,i3,i4,i5,i6,i7,i8,i9,i10,i11,i12⟩ := inv
+  cases st <;> constructor <;> simp only [setPc, publish, upd] <;> first | grind [target, foundPc] | skip
+  case load.lower_busy d hpc =>
+    intro t1 u l post pre h
+    by_cases ht : t1 = t
+    · subst ht
+      simp only [↓reduceIte] at h
+      cases pre with
+      | nil =>
+        simp only [List.nil_append, List.cons.injEq] at h
+        obtain ⟨rfl, h2⟩ := h
+        exact i4 t1 l post d h2 (by simp [hpc, target])
+      | cons p pre' =>
+        simp only [List.cons_append, List.cons.injEq] at h
+        exact i8 t1 u l post pre' h.2
+    · simp only [ht, ↓reduceIte] at h
+      exact i8 t1 u l post pre h
+  case unsetOk.suffix f rest hpc hst =>
+    intro t1 g hg
+    by_cases ht : t1 = t
+    · subst ht
+      simp only [↓reduceIte, List.mem_cons] at hg
+      rcases hg with rfl | hg
+      · exact (List.tail_suffix _).trans (i7 t1 f (by simp [hst]))
+      · exact i7 t1 g (by simp [hst, hg])
+    · simp only [ht, ↓reduceIte] at hg
+      exact i7 t1 g hg
+  case unsetOk.lower_busy f rest hpc hst =>
+    intro t1 u l post pre h
+    by_cases ht : t1 = t
+    · subst ht
+      simp only [↓reduceIte] at h
+      cases pre with
+      | nil =>
+        simp only [List.nil_append, List.cons.injEq] at h
+        obtain ⟨rfl, h2⟩ := h
+        exact i8 t1 f l post [] (by simp [hst, h2])
+      | cons p pre' =>
+        simp only [List.cons_append, List.cons.injEq] at h
+        exact i8 t1 u l post (f :: pre') (by simp [hst, h.2])
+    · simp only [ht, ↓reduceIte] at h
+      exact i8 t1 u l post pre h
+  case fin.unset_frame r f rest hpc hst =>
+    intro t1 g rest1 r1 h hp
+    by_cases ht : t1 = t
+    · subst ht
+      simp only [↓reduceIte] at h
+      have := i8 t1 f g rest1 [] (by simp [hst, h])
+      intro h0; simp [h0] at this
+    · simp only [ht, ↓reduceIte] at h hp
+      exact i6 t1 g rest1 r1 h hp
+
+theorem inv1_reachable {P : Project} {s : State} (h : Reachable .fixed P s) : Inv1 P s :=
+  reachable_induction (I := Inv1 P) (inv1_init P) (fun _ _ _ _ ih st => inv1_fstep ih st) h
 
 end Dawn.Loader
